@@ -278,6 +278,57 @@ def bam_case(args):
     return res, n
 
 
+def narrow_header_case(args):
+    """per-chromosome BAM files whose headers list their own reference sequence only (reads aligned chromosome by chromosome), in both
+    orders, and a single such file next to a reference with more sequences: the results are those of the one BAM with the full header"""
+    mode, scratch = args
+    from vlib import syn, run
+    w = the_world()
+    d = os.path.join(scratch, "c12n_%s" % mode)
+    shutil.rmtree(d, ignore_errors=True)
+    chroms = list(w["chroms"])
+    reads = [r for r in w["reads"] if not r.get("unmapped")]
+    if mode.startswith("single"):
+        reads = [r for r in reads if r["chr"] == chroms[0]]
+    paths = syn.materialise(dict(w, reads=reads), d)
+    seqs = syn.genome_sequences(w)
+    extra = ["--no_model_construction", "--count_exons", "--sqanti_output"]
+    if mode.endswith("-table"):
+        # ... with the read groups given in a table (split into one table per reference sequence at start-up)
+        mode_ = mode
+        mode = mode[:-6]
+        with open(os.path.join(d, "groups.tsv"), "w") as f:
+            for i, nm in enumerate(sorted(set(r["name"] for r in reads))):
+                f.write("%s\tg%d\n" % (nm, i % 3))
+        extra += ["--read_group", "file:" + os.path.join(d, "groups.tsv")]
+    else:
+        mode_ = mode
+    ref_out = os.path.join(d, "ref")
+    rc = run.run_isoquant(run.base_argv(paths, ref_out, extra=extra), paths["home"], os.path.join(d, "ref.txt"))
+    if rc != 0:
+        return mode_, [("reference-run-failed", "exit %d" % rc)]
+    t0 = {k: v for k, v in run.read_tree(os.path.join(ref_out, "OUT")).items() if any(k.endswith(x) or k.endswith(x + ".gz") for x in MULTISET_FILES)
+          or "grouped" in k}
+    bams = []
+    for c in (chroms[:1] if mode == "single" else (chroms if mode == "forward" else list(reversed(chroms)))):
+        sub = [r for r in reads if r["chr"] == c]
+        if sub:
+            bams.append(syn.write_bam(dict(w, chroms={c: w["chroms"][c]}), os.path.join(d, "only_%s.bam" % c), reads=sub, seqs=seqs))
+    out = os.path.join(d, "out")
+    argv = ["--output", out, "--reference", paths["ref"], "--bam"] + bams + ["--data_type", "nanopore", "--prefix", "OUT",
+            "--threads", "1", "--genedb", paths["gtf"], "--complete_genedb"] + extra
+    rc = run.run_isoquant(argv, paths["home"], os.path.join(d, "o.txt"))
+    errs = []
+    if rc != 0:
+        errs.append(("narrow-header:run-failed", "exit %d: %s" % (rc, open(os.path.join(d, "o.txt")).read()[-300:])))
+    else:
+        t1 = {k: v for k, v in run.read_tree(os.path.join(out, "OUT")).items() if k in t0}
+        for k, what in tree_diff(t0, t1, as_multiset=True):
+            errs.append(("narrow-header:%s" % k.split("OUT.")[-1], "%s %s" % (k, what)))
+    shutil.rmtree(d, ignore_errors=True)
+    return mode_, errs
+
+
 def run(ctx):
     quick = ctx.tier == "quick"
     jobs = []
@@ -303,6 +354,9 @@ def run(ctx):
         for k, msg in errs:
             ctx.violation(k, msg, {"flag_history": key[1]})
     ctx.note("annotation representations: %d cases" % n_ann)
+    for mode, errs in core.pmap(narrow_header_case, [(m, ctx.scratch) for m in ("forward", "reverse", "single", "forward-table", "single-table")]):
+        for k, msg in errs:
+            ctx.violation(k, "BAM files whose headers list one reference sequence each (%s): %s" % (mode, msg), {"narrow_header": mode})
     assigns = []
     nfiles = 2 if quick else 3
     for a in itertools.product(range(nfiles), repeat=CLASSES):
@@ -333,4 +387,7 @@ def run(ctx):
 
 
 def replay(ctx, case):
+    if "narrow_header" in case:
+        mode, errs = narrow_header_case((case["narrow_header"], ctx.scratch))
+        return errs[0][1] if errs else None
     return "re-run ./check C12 (deterministic)"
